@@ -104,12 +104,18 @@ def judge_wellformed(ops, cb, kids, img, data):
             g = sorted((d, t, n, s) for (d, t, n, s, acc, c) in got)
             if g != want: bad.append(f"recursive listing differs: ADFlib {len(g)} entries, image holds {len(want)}; first difference {next(((x, y) for x, y in zip(g + [None]*9, want + [None]*9) if x != y), None)}")
             else:
-                exp = {(d, n): (acc, c) for (d, t, n, s, acc, c) in expected_listing(kids, img)}
+                # several directories may hold an entry of the same name at the same depth: compare per (depth, name, size) as multisets
+                exp, have = {}, {}
+                for (d, t, n, s, acc, c) in expected_listing(kids, img):
+                    if t in (2, -3): exp.setdefault((d, n, s), []).append((acc, c.split(b"\0")[0]))
                 for (d, t, n, s, acc, c) in got:
-                    ea, ec = exp.get((d, n), (None, None))
-                    if ea is not None and t in (2, -3):
-                        if (acc & 0xffffffff) != ea: bad.append(f"entry {n!r}: protection {acc}, image says {ea}")
-                        if c is not None and c != ec.split(b"\0")[0]: bad.append(f"entry {n!r}: comment {c!r}, image says {ec!r}")
+                    if t in (2, -3): have.setdefault((d, n, s), []).append((acc & 0xffffffff, c))
+                for k in exp:
+                    e_acc = sorted(a for a, _ in exp[k]); g_acc = sorted(a for a, _ in have.get(k, []))
+                    if e_acc != g_acc: bad.append(f"entry {k[1]!r}: protection {g_acc}, image says {e_acc}")
+                    if all(c is not None for _, c in have.get(k, [])):
+                        e_c = sorted(c for _, c in exp[k]); g_c = sorted(c for _, c in have.get(k, []))
+                        if e_c != g_c: bad.append(f"entry {k[1]!r}: comment {g_c!r}, image says {e_c!r}")
         elif a[0] == "toroot": cwd = []
         elif a[0] == "chdir":
             if "rc=0" in res: cwd.append(bytes.fromhex(a[3]))
